@@ -47,10 +47,44 @@ fn session2(reply_ack: bool, srv_reply_ack: bool) -> Session {
     Session { proxy, proxy_fd, tap_b, srv, tap_f, h, reply_ack }
 }
 
+/// Descriptor 0 of the process, parked while a lent file occupies the number; put back on drop.
+struct Fd0(i32);
+impl Fd0 {
+    fn install(f: &std::fs::File) -> Fd0 {
+        let saved = unsafe { libc::fcntl(0, libc::F_DUPFD_CLOEXEC, 3) };
+        assert_eq!(unsafe { libc::dup2(f.as_raw_fd(), 0) }, 0);
+        report::count("requests_lending_descriptor_0", 1);
+        Fd0(saved)
+    }
+}
+impl Drop for Fd0 {
+    fn drop(&mut self) {
+        unsafe {
+            if self.0 >= 0 {
+                libc::dup2(self.0, 0);
+                libc::close(self.0);
+            } else {
+                libc::close(0);
+            }
+        }
+    }
+}
+
 fn one(cfg: &Cfg, s: &mut Session, op: &BeOp, out: &FeOut, seqno: u64, case: &str) -> bool {
     s.h.lock().unwrap().out = Some(out.clone());
     let before = s.h.lock().unwrap().log.len();
     let file = sys::memfd("c18", 4096);
+    // every 16th request lends its file as descriptor number 0 (what a process with stdin closed gets from its
+    // next open): the harness's own descriptor 0 is parked and put back when this case ends
+    let _fd0 = if seqno % 16 == 5 && op.wire().1 == 1 { Some(Fd0::install(&file)) } else { None };
+    let file = match &_fd0 {
+        Some(_) => {
+            drop(file);
+            std::mem::ManuallyDrop::new(unsafe { <std::fs::File as std::os::unix::io::FromRawFd>::from_raw_fd(0) })
+        }
+        None => std::mem::ManuallyDrop::new(file),
+    };
+    let lent_as_fd0 = _fd0.is_some();
     let file_id = sys::ident(file.as_raw_fd());
     let proxy = s.proxy.clone();
     let op2 = op.clone();
@@ -93,7 +127,10 @@ fn one(cfg: &Cfg, s: &mut Session, op: &BeOp, out: &FeOut, seqno: u64, case: &st
         // nothing (or only part of a request) reached the wire: there is nothing to hand to the
         // handler; release the caller and report
         unsafe { libc::shutdown(s.proxy_fd, libc::SHUT_RDWR) };
-        let (res, _file) = th.join().expect("proxy thread");
+        let (res, file2) = th.join().expect("proxy thread");
+        if !lent_as_fd0 {
+            drop(std::mem::ManuallyDrop::into_inner(file2));
+        }
         report::eval(1);
         report::violation(
             &format!("C18:{}:request-not-written", op.name()),
@@ -190,6 +227,9 @@ fn one(cfg: &Cfg, s: &mut Session, op: &BeOp, out: &FeOut, seqno: u64, case: &st
     // the lent descriptor is still ours
     if sys::ident(file.as_raw_fd()) != file_id {
         problems.push(("lent-descriptor-closed".into(), String::new()));
+    }
+    if !lent_as_fd0 {
+        drop(std::mem::ManuallyDrop::into_inner(file));
     }
     for a in acks.iter_mut() {
         a.close_fds();
